@@ -51,6 +51,8 @@ type gen struct {
 }
 
 // Run generates the C13 stream.
+var ticketOps int
+
 func Run(c *hctx.Ctx) {
 	w, err := asn1proj.Build()
 	if err != nil {
@@ -769,6 +771,13 @@ func (g *gen) ticketOperations() {
 				continue
 			}
 			c.Count(fmt.Sprintf("ticket-ops:etype=%d", e.etype))
+			ticketOps++
+			if ticketOps%2 == 0 {
+				// the optional kvno of the enc-part absent on the wire (the keytab then offers its newest key):
+				// decryption must not fill it in
+				tkt.EncPart.KVNO = 0
+				c.Count("ticket-ops:kvno-absent")
+			}
 			b1 := g.exercise(cdTicket, &tkt)
 			if b1 == nil {
 				continue
